@@ -186,6 +186,8 @@ def run_property(prop, tier="quick", configs=None, repo=None, quiet=False, targe
         from .normalize import normalize
         norm = normalize(prog)          # identity on the pinned tree; inlines functions the pinned tree does not have
         cx = Cx(prop, prog, tier, cfg, tree, repo=repo)
+        from . import lib as _lib
+        _lib.set_program(prog)
         try:
             mod.run(cx)
         except Exception as e:            # an error between obligations (e.g. a value an earlier, failed obligation was to bind)
